@@ -95,6 +95,7 @@ package ip
 //@ func (CIDR).Version
 //@   trusted
 //@   ensures res == cidrVersion(recv)
+//@   ensures (istype(recv, V4CIDR) ==> res == 4) && (istype(recv, V6CIDR) ==> res == 6)
 //@   assigns nothing
 //@ func FromString
 //@   trusted
@@ -127,4 +128,100 @@ package ip
 //@ func (*CIDRTrie).Covers
 //@   trusted
 //@   ensures res == (exists c CIDR :: t.cidrs[c] && cidrWithin(cidr, c))
+//@   assigns nothing
+
+//@ -- ---------------------------------------------------------------- C36: the trie walkers
+//@ -- Vocabulary over the CIDR interface (its two implementations): family, prefix length, "q's address lies in
+//@ -- c", "a is a prefix of b" and the n-th address bit - all defined by the plain mask arithmetic above.
+//@ spec func cidrFam4(c CIDR) bool = istype(c, V4CIDR)
+//@ spec func cidrFam6(c CIDR) bool = istype(c, V6CIDR)
+//@ spec func cidrSameFam(a CIDR, b CIDR) bool = (cidrFam4(a) && cidrFam4(b)) || (cidrFam6(a) && cidrFam6(b))
+//@ spec func cidrValid(c CIDR) bool = (cidrFam4(c) && v4valid(cast(c, V4CIDR))) || (cidrFam6(c) && v6valid(cast(c, V6CIDR)))
+//@ spec func cidrPfx(c CIDR) uint8 = cidrFam4(c) ? cast(c, V4CIDR).prefix : cast(c, V6CIDR).prefix
+//@ spec func cidrAddrIn(c CIDR, q CIDR) bool = cidrFam4(c) ? v4agree(cast(c, V4CIDR).addr, cast(q, V4CIDR).addr, cast(c, V4CIDR).prefix) : v6agree(cast(c, V6CIDR).addr, cast(q, V6CIDR).addr, cast(c, V6CIDR).prefix)
+//@ spec func cidrCovers(a CIDR, b CIDR) bool = cidrPfx(a) <= cidrPfx(b) && cidrAddrIn(a, b)
+//@ spec func cidrBitAt(q CIDR, n uint) int = cidrFam4(q) ? v4bit(cast(q, V4CIDR).addr, n) : v6bit(cast(q, V6CIDR).addr, n)
+
+//@ -- dynamic dispatch of the interface methods to the (verified) methods of the two implementations: trusted
+//@ func (CIDR).Prefix
+//@   trusted
+//@   ensures res == cidrPfx(recv)
+//@   assigns nothing
+//@ func (CIDR).Addr
+//@   trusted
+//@   ensures cidrFam4(recv) ==> istype(res, V4Addr) && cast(res, V4Addr) == cast(recv, V4CIDR).addr
+//@   ensures cidrFam6(recv) ==> istype(res, V6Addr) && cast(res, V6Addr) == cast(recv, V6CIDR).addr
+//@   assigns nothing
+//@ func (CIDR).Contains
+//@   trusted
+//@   ensures cidrFam4(recv) && istype(addr, V4Addr) ==> res == v4agree(cast(recv, V4CIDR).addr, cast(addr, V4Addr), cast(recv, V4CIDR).prefix)
+//@   ensures cidrFam6(recv) && istype(addr, V6Addr) ==> res == v6agree(cast(recv, V6CIDR).addr, cast(addr, V6Addr), cast(recv, V6CIDR).prefix)
+//@   assigns nothing
+//@ func (Addr).NthBit
+//@   trusted
+//@   params recv, n
+//@   ensures istype(recv, V4Addr) ==> res == v4bit(cast(recv, V4Addr), n)
+//@   ensures istype(recv, V6Addr) ==> res == v6bit(cast(recv, V6Addr), n)
+//@   ensures 0 <= res && res <= 1
+//@   assigns nothing
+//@ func (V4CIDR).Version
+//@   property C36
+//@   ensures res == 4
+//@   assigns nothing
+//@ func (V6CIDR).Version
+//@   property C36
+//@   ensures res == 6
+//@   assigns nothing
+//@ func (V4CIDR).Prefix
+//@   property C36
+//@   ensures res == c.prefix
+//@   assigns nothing
+//@ func (V6CIDR).Prefix
+//@   property C36
+//@   ensures res == c.prefix
+//@   assigns nothing
+//@ func (V4CIDR).Contains
+//@   property C36
+//@   requires c.prefix <= 32
+//@   ensures istype(addr, V4Addr) ==> res == v4agree(c.addr, cast(addr, V4Addr), c.prefix)
+//@   ensures !istype(addr, V4Addr) ==> !res
+//@   assigns nothing
+//@ func (V6CIDR).Contains
+//@   property C36
+//@   requires c.prefix <= 128
+//@   ensures istype(addr, V6Addr) ==> res == v6agree(c.addr, cast(addr, V6Addr), c.prefix)
+//@   ensures !istype(addr, V6Addr) ==> !res
+//@   assigns nothing
+
+//@ -- CommonPrefix(a, b) returns a itself exactly when a is a prefix of b (for well-formed CIDRs of one family)
+//@ func CommonPrefix
+//@   property C36
+//@   option safety off
+//@   requires cidrSameFam(a, b) && cidrValid(a) && cidrValid(b)
+//@   ensures cidrSameFam(res, a) && cidrValid(res) && cidrPfx(res) <= cidrPfx(a) && cidrPfx(res) <= cidrPfx(b)
+//@   ensures (res == a) == cidrCovers(a, b)
+//@   ensures (res == b) == cidrCovers(b, a)
+//@   assigns nothing
+
+//@ -- Local shape of the trie, assumed of every node by the read-only walkers: a node's CIDR is well formed; a
+//@ -- child's CIDR is of the same family, strictly longer, lies inside the parent's, and its first bit after the
+//@ -- parent's prefix is the child's index.
+//@ spec macro childOK(m *CIDRNode, i int) bool = m.children[i] == nil || (cidrSameFam(m.children[i].cidr, m.cidr) && cidrValid(m.children[i].cidr)
+//@      && cidrPfx(m.children[i].cidr) > cidrPfx(m.cidr) && cidrCovers(m.cidr, m.children[i].cidr) && cidrBitAt(m.children[i].cidr, uint(cidrPfx(m.cidr)) + 1) == i)
+//@ spec macro nodeOK(m *CIDRNode) bool = cidrValid(m.cidr) && childOK(m, 0) && childOK(m, 1)
+//@ spec macro trieOK() bool = forall m *CIDRNode :: m != nil ==> nodeOK(m)
+
+//@ -- What each walker computes, as a recursion equation over the nodes (the walker is proved to implement its
+//@ -- equation exactly; that the equation characterises the set-level query - induction over the tree - is not
+//@ -- mechanised, see the property's notes).
+//@ -- covers(n, q): some stored prefix on the path contains q: n's CIDR is a prefix of q and (n holds data or
+//@ -- the child on q's side covers q)
+//@ spec func nodeCoversSpec(n *CIDRNode, q CIDR) bool
+//@ axiom nodeCovers_def: forall n *CIDRNode, q CIDR :: nodeCoversSpec(n, q) == (n != nil && cidrCovers(n.cidr, q) && (n.data != nil || nodeCoversSpec(n.children[cidrBitAt(q, uint(cidrPfx(n.cidr)) + 1)], q)))
+//@ func (*CIDRNode).covers
+//@   property C36
+//@   option safety off
+//@   uses nodeCovers_def
+//@   requires trieOK() && cidrValid(cidr) && (n == nil || cidrSameFam(n.cidr, cidr))
+//@   ensures res == nodeCoversSpec(n, cidr)
 //@   assigns nothing
